@@ -603,6 +603,61 @@ theorem rewriteFilters_sound (σ : Nat → Bool) (p : P) : (rewriteFilters p).tr
   · rfl
 
 
+/-- **the OR-rewrite strictly shrinks the predicate** whenever it fires -/
+theorem replaceCommon_size (first : P) (ors : List P) (q : P) (hors : ors ≠ [])
+    (h : replaceCommon first ors = some q) : q.size < first.size + sizeL ors := by
+  unfold replaceCommon at h
+  have hnd := shared_nodup (andComps first).eraseDups (ors.map (fun c => (andComps c).eraseDups)) (nodup_eraseDups _)
+  have hall : ∀ comp ∈ (andComps first).eraseDups :: ors.map (fun c => (andComps c).eraseDups),
+      ∀ r ∈ shared (andComps first).eraseDups (ors.map (fun c => (andComps c).eraseDups)), r ∈ comp := by
+    intro comp hc r hr
+    simp only [shared, List.mem_filter, List.all_eq_true, List.contains_eq_mem, decide_eq_true_eq] at hr
+    rcases List.mem_cons.mp hc with h1 | h1
+    · subst h1; exact hr.1
+    · exact hr.2 comp h1
+  have hlen : 2 ≤ ((andComps first).eraseDups :: ors.map (fun c => (andComps c).eraseDups)).length := by
+    cases ors with
+    | nil => exact absurd rfl hors
+    | cons o os => simp
+  have hfin := finish_size _ _ q hnd hall hlen h
+  have hpos : 0 < sizeL (shared (andComps first).eraseDups (ors.map (fun c => (andComps c).eraseDups))) := by
+    unfold finish at h
+    cases hout : andOf (shared (andComps first).eraseDups (ors.map (fun c => (andComps c).eraseDups))) with
+    | none => simp [hout] at h
+    | some outer => exact sizeL_pos_of_andOf _ outer hout
+  have htotal : (((andComps first).eraseDups :: ors.map (fun c => (andComps c).eraseDups)).map sizeL).sum ≤ first.size + sizeL ors := by
+    simp only [List.map_cons, List.sum_cons, List.map_map]
+    have h0 : sizeL (andComps first).eraseDups ≤ first.size := by rw [size_andComps first]; exact sizeL_eraseDups_le _
+    have h1 : (ors.map (sizeL ∘ fun c => (andComps c).eraseDups)).sum ≤ sizeL ors := by
+      clear h hfin hpos hlen hall hnd hors
+      induction ors with
+      | nil => simp [sizeL]
+      | cons o os ih =>
+        simp only [List.map_cons, List.sum_cons, Function.comp_def, sizeL_cons]
+        have := sizeL_eraseDups_le (andComps o)
+        rw [← size_andComps o] at this
+        have ih' := ih
+        simp only [Function.comp_def] at ih' ⊢
+        omega
+    omega
+  omega
+
+/-- **termination measure of the OR-rewrite**: `rewrite_filters` either leaves the predicate alone or returns a strictly
+    smaller one — `Filter._simplify_up` can fire it only finitely often on a filter -/
+theorem rewriteFilters_size (p : P) : rewriteFilters p = p ∨ (rewriteFilters p).size < p.size := by
+  unfold rewriteFilters
+  split
+  · rename_i first second rest hoc
+    cases hrc : replaceCommon first (second :: rest) with
+    | none => left; rfl
+    | some q =>
+      right
+      simp only [Option.getD_some]
+      have := replaceCommon_size first (second :: rest) q (by simp) hrc
+      rw [size_orComps p, hoc, sizeL_cons]
+      exact this
+  · left; rfl
+
 /-- the absorbing clause in every position: `(A & C) | A`, `A | (A & C)`, `(A & B) | A | (A & C)` all become `A` -/
 example : rewriteFilters (.or (.and (.atom 0) (.atom 2)) (.atom 0)) = .atom 0 := by decide
 example : rewriteFilters (.or (.atom 0) (.and (.atom 0) (.atom 2))) = .atom 0 := by decide
